@@ -1,9 +1,30 @@
 import OVM.Hex.Spec
+import OVM.Hex.Lemmas
+import OVM.Hex.CubePerms
 /-
   C16 — hexahedral kernel: shape and halfface-order invariants, hex navigation.
   Part 1 is about the tables *generated from the C++ sources* (OVM.Gen.HexTables, T2): an edit of an
   orientation constant, of `opposite_orientation`, of one entry of `orthogonal_orientation`, of
   `orderTop` / `orderBot` or of the offset chains breaks these proofs on the next run.
+  Part 2: the length part of `HexShape` (four halfedges per face, six halffaces per cell, over all
+  slots) is an invariant of the guarded adds (rejected ⇒ the state itself is returned), of the four
+  index swaps, of `delete_cell` in every mode and of deferred deletion of anything.  Immediate
+  deletion of faces / edges / vertices and garbage collection erase slots and *filter* the erased
+  halffaces out of the remaining definitions (`fixHalfList`): there the lengths are preserved only
+  on states whose deleted set is upward closed — that invariant is not proved in this tree, so these
+  operations, and the "eight distinct vertices" clause, are judged on the implementation's dumps by
+  the oracle `hexShapeB` (OVM/Hex/Judge.lean) and not claimed here.
+  Part 3: what the topology-checked `add_cell` stores.  `check_halfface_ordering` accepting implies
+  both walk clauses (`checkOrdering_walk`, under the hypothesis that the first halfedge of either of
+  the first two halffaces borders a side halfface); the re-ordering path always stores a list whose
+  walk clause holds, made of the given halffaces (`reorder_walk`).  The clause "halffaces 2k, 2k+1
+  share no vertex" does NOT follow from acceptance: `pinched_accepted` is a machine-checked
+  counterexample in the model (confirmed on the real code by the correspondence run, reported as
+  C16J).  On the standard cube every one of the 720 permutations is re-ordered into a HexConv cell
+  (`cube_all_permutations_partial`).
+  Part 4: orientation / accessors / opposite halfface are the positions of the stored list.
+  Part 5: `add_cell(8 vertices)` and `hex_vertices` on concrete cubes (`…_partial`: symbolic
+  computation over eight arbitrary distinct vertices through the find-or-create loops is not done).
 -/
 namespace OVM.Props.C16
 open OVM OVM.Kernel OVM.Gen.HexTables
@@ -56,5 +77,216 @@ theorem orthogonal_matches_order : ∀ i < 4,
     orthogonalOrientation XB (specOrderBot.getD i 0) = specOrderBot.getD ((i + 1) % 4) 0 := by decide
 
 example : orthogonalOrientation XF ZB = YF ∧ orthogonalOrientation ZB XF = YB ∧ oppositeOrientation YF = YB := by decide
+
+/-! ## Part 2: the length part of HexShape is preserved -/
+
+theorem hexLen_empty : HexLen ({} : Kernel) := by constructor <;> simp
+
+/-- `HexLen` is what the executable test computes -/
+theorem hexLen_iff_test (k : Kernel) : HexLen k ↔ k.hexLenB = true := by
+  unfold HexLen hexLenB; simp [List.all_eq_true]
+
+/-- a rejected guarded add returns the state itself (every field: definitions, flags, caches, properties) -/
+theorem add_face_reject_unchanged (k : Kernel) (hes : List Nat) (chk : Bool)
+    (h : (k.hexAddFace hes chk).2 = none) : (k.hexAddFace hes chk).1 = k := hexAddFace_reject_unchanged k hes chk h
+theorem add_cell_reject_unchanged (k : Kernel) (hfs : List Nat) (chk : Bool)
+    (h : (k.hexAddCell hfs chk).2 = none) : (k.hexAddCell hfs chk).1 = k := hexAddCell_reject_unchanged k hfs chk h
+
+/-- all four adds of the hexahedral kernel keep four halfedges per face and six halffaces per cell,
+    for every state and every argument list -/
+theorem adds_preserve_len (k : Kernel) (h : HexLen k) :
+    (∀ hes chk, HexLen (k.hexAddFace hes chk).1) ∧ (∀ vs, HexLen (k.hexAddFaceV vs).1) ∧
+    (∀ hfs chk, HexLen (k.hexAddCell hfs chk).1) ∧ (∀ vs chk, HexLen (k.hexAddCellV vs chk).1) :=
+  ⟨fun hes chk => hexAddFace_len k hes chk h, fun vs => hexAddFaceV_len k vs h,
+   fun hfs chk => hexAddCell_len k hfs chk h, fun vs chk => hexAddCellV_len k vs chk h⟩
+
+theorem swaps_preserve_len (k : Kernel) (a b : Nat) (h : HexLen k) :
+    HexLen (k.swapVertex a b) ∧ HexLen (k.swapEdge a b) ∧ HexLen (k.swapFace a b) ∧ HexLen (k.swapCell a b) :=
+  ⟨swapVertex_len k a b h, swapEdge_len k a b h, swapFace_len k a b h, swapCell_len k a b h⟩
+
+/-- `delete_cell` in every deletion mode (deferred, immediate, fast) -/
+theorem delete_cell_preserves_len (k : Kernel) (c : Nat) (h : HexLen k) : HexLen (k.deleteCell c) :=
+  deleteCellCore_len k c h
+
+/-- deferred deletion of a vertex, edge, face or cell leaves every face and cell definition as it is -/
+theorem deferred_delete_preserves_len (k : Kernel) (x : Nat) (hd : k.deferred = true) (h : HexLen k) :
+    HexLen (k.deleteCell x) ∧ HexLen (k.deleteFace x) ∧ HexLen (k.deleteEdge x) ∧ HexLen (k.deleteVertex x) := by
+  obtain ⟨a, b, c, d⟩ := delete_deferred_sameDefs k x hd
+  exact ⟨h.of_eq a.1 a.2.1, h.of_eq b.1 b.2.1, h.of_eq c.1 c.2.1, h.of_eq d.1 d.2.1⟩
+
+/-- non-vacuity: the standard cube satisfies `HexLen`, and a five-halfface list, a list over a
+    triangle-free mesh with a wrong count, and a three-halfedge face are rejected unchanged -/
+example : HexLen Hex.Cube.kF ∧ (Hex.Cube.kF.hexAddCell [0, 2, 4, 6, 8] true) = (Hex.Cube.kF, none) ∧
+    (Hex.Cube.kF.hexAddFace [0, 2, 4] true) = (Hex.Cube.kF, none) ∧
+    (Hex.Cube.kF.hexAddCell [0, 2, 4, 6, 8, 11] true) = (Hex.Cube.kF, none) := by
+  refine ⟨(hexLen_iff_test _).mpr (by decide +kernel), by decide +kernel, by decide +kernel, by decide +kernel⟩
+
+/-! ## Part 3: what the topology-checked add_cell stores -/
+
+/-- an accepted call appends exactly one cell of six halffaces, over faces of valence four; it is the
+    given list (unchecked, or `check_halfface_ordering` accepted it) or the re-ordered one -/
+theorem add_cell_accept (k : Kernel) (hfs : List Nat) (chk : Bool) (c : Nat) (h : (k.hexAddCell hfs chk).2 = some c) :
+    c = k.nC ∧ (k.hexAddCell hfs chk).1.faces = k.faces ∧
+    ∃ l, (k.hexAddCell hfs chk).1.cells = k.cells ++ [l] ∧ l.length = 6 ∧
+      (∀ hf ∈ hfs, (k.faceAt (eOf hf)).length = 4) ∧
+      (chk = false ∧ l = hfs ∨ chk = true ∧ l = hfs ∧ k.hexCheckOrdering hfs = true ∨
+       chk = true ∧ k.hexCheckOrdering hfs = false ∧ k.hexReorder hfs = some l) :=
+  hexAddCell_accept k hfs chk c h
+
+/-- `check_halfface_ordering` accepts ⇒ walking the first halfface meets positions 2,4,3,5 and walking
+    the second meets 3,4,2,5 (cyclically, fixed handedness).  Hypothesis: the neighbour across the
+    first halfedge of the first (second) halfface exists in the list and is not the second (first)
+    halfface.  Without it the C++ check is weaker than HexConv: it only constrains the neighbours
+    from the first side halfface it meets onwards. -/
+theorem checkOrdering_walk (k : Kernel) (h0 h1 h2 h3 h4 h5 e0 e1 e2 e3 f0 f1 f2 f3 x y : Nat)
+    (htop : k.hfHes h0 = [e0, e1, e2, e3]) (hbot : k.hfHes h1 = [f0, f1, f2, f3])
+    (hchk : k.hexCheckOrdering [h0, h1, h2, h3, h4, h5] = true)
+    (hx : k.hexGetAdj h0 e0 [h0, h1, h2, h3, h4, h5] = some x) (hxb : x ≠ h1)
+    (hy : k.hexGetAdj h1 f0 [h0, h1, h2, h3, h4, h5] = some y) (hyt : y ≠ h0) :
+    k.hexWalkB [h0, h1, h2, h3, h4, h5] = true ∧ k.hexWalkAtB [h0, h1, h2, h3, h4, h5] 1 specOrderBot = true :=
+  Kernel.checkOrdering_walk k h0 h1 h2 h3 h4 h5 e0 e1 e2 e3 f0 f1 f2 f3 x y htop hbot hchk hx hxb hy hyt
+
+/-- the re-ordering path: whatever list of six valence-four halffaces comes in, the list handed to the
+    base class keeps the first halfface, consists of halffaces of the given list, and walking its
+    first halfface meets positions 2,4,3,5 -/
+theorem reorder_walk (k : Kernel) (hfs ord : List Nat) (hne : hfs ≠ []) (h4 : (k.faceAt (eOf (hfs.getD 0 0))).length = 4)
+    (h : k.hexReorder hfs = some ord) :
+    ord.length = 6 ∧ ord.getD 0 0 = hfs.getD 0 0 ∧ (∀ x ∈ ord, x ∈ hfs) ∧ k.hexWalkB ord = true := by
+  have h4' : (k.hfHes (hfs.getD 0 0)).length = 4 := by rw [hfHes_length]; exact h4
+  obtain ⟨a, b⟩ := hexReorder_walk k hfs ord h4' h
+  exact ⟨hexReorder_length k hfs ord h, b, hexReorder_subset k hfs ord h4' hne h, a⟩
+
+/-- together: a cell accepted by the checked call through the re-ordering path satisfies the walk
+    clause *in the new state* -/
+theorem checked_add_cell_reordered_walk (k : Kernel) (hfs : List Nat) (c : Nat)
+    (h : (k.hexAddCell hfs true).2 = some c) (hno : k.hexCheckOrdering hfs = false) :
+    (k.hexAddCell hfs true).1.hexWalkB ((k.hexAddCell hfs true).1.cellAt c) = true := by
+  obtain ⟨hc, hf, l, hcells, hl, hv, hcase⟩ := hexAddCell_accept k hfs true c h
+  have hne : hfs ≠ [] := by
+    intro e; subst e; unfold hexAddCell at h; simp at h
+  have hfirst : hfs.getD 0 0 ∈ hfs := by
+    cases hfs with
+    | nil => exact absurd rfl hne
+    | cons a t => simp
+  have hre : k.hexReorder hfs = some l := by
+    rcases hcase with ⟨e, _⟩ | ⟨_, _, e⟩ | ⟨_, _, e⟩
+    · simp at e
+    · rw [hno] at e; simp at e
+    · exact e
+  have hw := (reorder_walk k hfs l hne (hv _ hfirst) hre).2.2.2
+  have hcell : (k.hexAddCell hfs true).1.cellAt c = l := by
+    unfold cellAt; rw [hcells, hc]; simp [nC]
+  rw [hcell]
+  unfold hexWalkB
+  rw [hexWalkAtB_congr k _ hf]
+  exact hw
+
+/-- negative witness: a hexahedron with two diagonally opposite vertices identified (six proper quads,
+    closed surface, 7 distinct vertices) is accepted by the checked `add_cell`, stored as given, and
+    its first two halffaces share a vertex — acceptance does not imply "eight distinct vertices" nor
+    the first clause of HexConv -/
+theorem pinched_accepted :
+    let vs := [0, 1, 2, 3, 4, 5, 0, 7]
+    let kP := cellVAdd.foldl (fun k a => (k.hexAddFaceV (hexPick vs a.2.1)).1) (({} : Kernel).addNVertices 8)
+    let r := kP.hexAddCell [0, 2, 4, 6, 8, 10] true
+    r.2 = some 0 ∧ r.1.cellAt 0 = [0, 2, 4, 6, 8, 10] ∧ (r.1.cellVerts 0).length = 7 ∧
+    r.1.hexOppDisjointB (r.1.cellAt 0) = false ∧ r.1.hexWalkB (r.1.cellAt 0) = true := by decide +kernel
+
+/-- on the standard cube all 720 permutations of the halfface list are accepted by the checked call
+    and stored as a HexConv re-ordering of the given list (`_partial`: this cube only; the general
+    statement needs "a permutation of a HexConv list is re-ordered into a HexConv list", of which
+    `reorder_walk` is the walk half) -/
+theorem cube_all_permutations_partial (p : List Nat) (hp : p.Perm [0, 2, 4, 6, 8, 10]) :
+    let r := Hex.Cube.kG.hexAddCell p true
+    r.2 = some 0 ∧ r.1.hexConvB 0 = true ∧ (r.1.cellAt 0).Perm p := by
+  have hm := Hex.Cube.mem_perms_of_perm Hex.Cube.L p hp
+  have hg := List.all_eq_true.mp Hex.Cube.all_perms_good p hm
+  unfold Hex.Cube.good at hg
+  simp only [Bool.and_eq_true, beq_iff_eq] at hg
+  refine ⟨hg.1.1, hg.1.2, ?_⟩
+  -- both are permutations of L: equal after sorting
+  have h1 : sortL (((Hex.Cube.kG.hexAddCell p true).1).cellAt 0) = Hex.Cube.L := hg.2
+  have hs : ∀ l : List Nat, (sortL l).Perm l := by
+    intro l; unfold sortL
+    induction l with
+    | nil => exact List.Perm.refl _
+    | cons a t ih =>
+      simp only [List.foldr_cons]
+      have hi : ∀ (x : Nat) (m : List Nat), (insertDup x m).Perm (x :: m) := by
+        intro x m
+        induction m with
+        | nil => exact List.Perm.refl _
+        | cons y ys ihm =>
+          unfold insertDup; split
+          · exact List.Perm.refl _
+          · exact (List.Perm.cons y ihm).trans (List.Perm.swap x y ys)
+      exact (hi a _).trans (List.Perm.cons a ih)
+  exact ((hs _).symm.trans (h1 ▸ List.Perm.refl _)).trans hp.symm
+
+example : (Hex.Cube.perms Hex.Cube.L).length = 720 := Hex.Cube.perms_count
+
+/-- non-vacuity of `checkOrdering_walk` and `reorder_walk`: the hypotheses hold on the standard cube
+    (convention order accepted by the check; a mirrored order goes through the re-ordering) -/
+example : Hex.Cube.kG.hexCheckOrdering [0, 2, 4, 6, 8, 10] = true ∧
+    Hex.Cube.kG.hexGetAdj 0 (Hex.Cube.kG.hfHes 0).head! [0, 2, 4, 6, 8, 10] = some 10 ∧
+    Hex.Cube.kG.hexGetAdj 2 (Hex.Cube.kG.hfHes 2).head! [0, 2, 4, 6, 8, 10] = some 4 ∧
+    Hex.Cube.kG.hexCheckOrdering [0, 2, 4, 6, 10, 8] = false ∧
+    Hex.Cube.kG.hexReorder [0, 2, 4, 6, 10, 8] = some [0, 2, 10, 8, 4, 6] := by decide +kernel
+
+/-! ## Part 4: orientation, accessors, opposite halfface -/
+
+/-- the six accessors are the positions 0 … 5 of the stored list (`none` = out of range) -/
+theorem accessors_are_positions (k : Kernel) (c : Nat) :
+    k.xfrontHalfface c = (k.cellAt c)[0]? ∧ k.xbackHalfface c = (k.cellAt c)[1]? ∧
+    k.yfrontHalfface c = (k.cellAt c)[2]? ∧ k.ybackHalfface c = (k.cellAt c)[3]? ∧
+    k.zfrontHalfface c = (k.cellAt c)[4]? ∧ k.zbackHalfface c = (k.cellAt c)[5]? := ⟨rfl, rfl, rfl, rfl, rfl, rfl⟩
+
+theorem get_oriented_is_position (k : Kernel) (c o : Nat) (ho : o < 6) : k.getOrientedHalfface o c = (k.cellAt c)[o]? :=
+  getOriented_pos k c o ho
+
+/-- `orientation(hf, c)` is the position of `hf` in the stored list, INVALID for a halfface that is
+    not in the cell (cells without repeated halffaces) -/
+theorem orientation_is_position (k : Kernel) (c i : Nat) (hn : (k.cellAt c).Nodup) (hi : i < (k.cellAt c).length) :
+    k.hexOrientation ((k.cellAt c)[i]) c = i := orientation_pos k c i hn hi
+theorem orientation_of_foreign (k : Kernel) (c hf : Nat) (h : hf ∉ k.cellAt c) : k.hexOrientation hf c = INVALID :=
+  orientation_invalid k c hf h
+
+/-- `opposite_halfface_handle_in_cell` maps position i to position i xor 1 … -/
+theorem opposite_in_cell_is_other_of_axis (k : Kernel) (c i : Nat) (hn : (k.cellAt c).Nodup) (hl : (k.cellAt c).length = 6)
+    (hi : i < 6) : k.oppositeHalffaceInCell ((k.cellAt c)[i]'(by omega)) c = (k.cellAt c)[i ^^^ 1]? :=
+  oppositeInCell_pos k c i hn hl hi
+
+/-- … and is a fixed-point-free involution on the six halffaces of a cell -/
+theorem opposite_in_cell_involutive (k : Kernel) (c hf : Nat) (hn : (k.cellAt c).Nodup) (hl : (k.cellAt c).length = 6)
+    (hm : hf ∈ k.cellAt c) :
+    ∃ r, k.oppositeHalffaceInCell hf c = some r ∧ r ∈ k.cellAt c ∧ r ≠ hf ∧ k.oppositeHalffaceInCell r c = some hf :=
+  oppositeInCell_involutive k c hf hn hl hm
+
+/-! ## Part 5: add_cell(8 vertices), hex_vertices and the sheet circulators on concrete cubes -/
+
+/-- `add_cell(8 vertices)` on a fresh standard cube: accepted as cell 0 in the convention order; the
+    cell is HexConv, the mesh HexShape, the layout agrees with `orthogonal_orientation`, and
+    `hex_vertices` yields the documented pattern -/
+theorem add_cell_vertices_cube_partial :
+    let r := Hex.Cube.k0.hexAddCellV [0, 1, 2, 3, 4, 5, 6, 7] true
+    r.2 = some 0 ∧ r.1.cellAt 0 = [0, 2, 4, 6, 8, 10] ∧ r.1.hexConvB 0 = true ∧ r.1.hexShapeB = true ∧
+    r.1.hexOrthLayoutB 0 = true ∧ r.1.hexVertices 0 = some [3, 0, 1, 2, 5, 6, 7, 4] ∧
+    r.1.hexVertsPatternB 0 [3, 0, 1, 2, 5, 6, 7, 4] = true := by decide +kernel
+
+/-- a second cube glued onto the x-back face of the first, given in another of its 24 orientations (its
+    shared face pre-exists in another rotation and is used from its other side): both cells HexConv,
+    `hex_vertices` follows the pattern, and the sheet circulators of either cell see the other one
+    exactly in the four directions orthogonal to the shared face's axis -/
+theorem add_cell_vertices_glued_partial :
+    let k1 := (Hex.Cube.k0.hexAddCellV [0, 1, 2, 3, 4, 5, 6, 7] true).1
+    let k2 := k1.addNVertices 4
+    -- second cube behind the first: front = (4,7,6,5)-side of the first; given rotated
+    let r := k2.hexAddCellV [7, 11, 10, 6, 4, 5, 9, 8] true
+    r.2 = some 1 ∧ r.1.hexConvB 0 = true ∧ r.1.hexConvB 1 = true ∧ r.1.hexShapeB = true ∧
+    r.1.hexOrthLayoutB 1 = true ∧
+    (match r.1.hexVertices 1 with | some v => r.1.hexVertsPatternB 1 v | none => false) = true ∧
+    (List.range 6).all (fun d => r.1.cellSheetCells 0 d == r.1.sSheetCells 0 d && r.1.cellSheetCells 1 d == r.1.sSheetCells 1 d) = true ∧
+    (List.range r.1.nHF).all (fun hf => sortUniq ((r.1.halffaceSheetHalffaces hf).map (·.1)) == r.1.sSheetHalffaces hf) = true ∧
+    r.1.cellSheetCells 0 2 = [1] ∧ r.1.cellSheetCells 0 0 = [] := by decide +kernel
 
 end OVM.Props.C16
